@@ -86,7 +86,7 @@ struct Injection {
     at_top: bool,
 }
 
-const N_CONSTRUCTS: u8 = 31;
+const N_CONSTRUCTS: u8 = 33;
 
 fn injection(kind: u8, variant: u8) -> Injection {
     let v = variant as usize;
@@ -129,6 +129,8 @@ fn injection(kind: u8, variant: u8) -> Injection {
         27 => (vec![], ["@&(~=1)zzq{}", "@&(x)zzq{}", "@&()zzq{}", "@&(-1)zzq{}"][v % 4].into(), Extensions::INTERMEDIATE_PREPARATIONS, "malformed intermediate reference", Stage::Parse),
         28 => (vec![], ["@zzq{4294967296/2}", "@zzq{1 99999999999/2%kg}"][v % 2].into(), e, "integer overflow in a fraction", Stage::Parse),
         29 => (vec![], String::new(), e, "malformed front matter", Stage::Analysis),
+        31 => (vec![], ["@zzq{1/0-2%cups}", "@zzq{1-1/0}", "#zzq{1-2 1/0}", "~zzq{1-1/0%min}", "@zzq{2 1/0 - 3%kg}"][v % 5].into(), Extensions::RANGE_VALUES, "zero denominator", Stage::Parse),
+        32 => (vec![">> [mode]: steps"], ["@zzq{}", "#zzq{}", "@zzq{1%kg}", "@zzq"][v % 4].into(), Extensions::MODES, "dangling reference", Stage::Analysis),
         _ => (
             // no step precedes it in its section, only text paragraphs
             [vec!["> a paragraph, not a step"], vec!["> one", "> two"], vec!["> one", "> two", "> three"]][v % 3].clone(),
